@@ -231,6 +231,42 @@ static void ladder_cases(vrng *r)
     vb_free(&d);
 }
 
+/* ------------------------------------------------------- length-prefix family -- */
+/* every string / bytes / field-name prefix width with the boundary values of its stored length, read as signed and as
+   unsigned, and with enough payload behind it for EITHER reading (a negative 16-bit length is only visible as an
+   acceptance when 32768..65535 payload bytes really follow) */
+static void length_cases(void)
+{
+    static const struct { int w; uint32_t v; } L[] = {
+        {1, 0x00}, {1, 0x01}, {1, 0x7f}, {1, 0x80}, {1, 0xff},
+        {2, 0x0000}, {2, 0x007f}, {2, 0x0080}, {2, 0x00ff}, {2, 0x0100}, {2, 0x7fff}, {2, 0x8000}, {2, 0x8001}, {2, 0xff80}, {2, 0xffff},
+        {4, 0x00000000}, {4, 0x0000007f}, {4, 0x00007fff}, {4, 0x00008000}, {4, 0x0000ffff}, {4, 0x00010000}, {4, 0x00011170},
+        {4, 0xffff8000u}, {4, 0xffffffffu}, {4, 0x80000000u}, {4, 0xffff0000u},
+    };
+    vbuf d; memset(&d, 0, sizeof d);
+    for (size_t i = 0; i < sizeof L / sizeof L[0]; i++) {
+        for (int where = 0; where < 4; where++) {          /* 0 string value, 1 bytes value, 2 field name, 3 string element of an array root */
+            for (int fill = 0; fill < 3; fill++) {           /* payload sized for the unsigned reading / the low 16 bits / nothing */
+                uint32_t un = L[i].v, pay = fill == 0 ? un : fill == 1 ? (un & 0xffffu) : 0;
+                if (pay > 80000) pay = 70001;
+                vb_reset(&d);
+                vb_u8(&d, where == 3 ? 0x42 : 0x40);
+                uint8_t base = where == 1 ? 0x18 : 0x14;
+                if (where < 2) { vb_u8(&d, 0x14); vb_u8(&d, 0x01); vb_u8(&d, 'a'); }
+                vb_u8(&d, (uint8_t)(base + (L[i].w == 1 ? 0 : L[i].w == 2 ? 1 : 2)));
+                for (int b = 0; b < L[i].w; b++) vb_u8(&d, (uint8_t)(un >> (8 * b)));
+                for (uint32_t b = 0; b < pay; b++) vb_u8(&d, 'x');
+                if (where == 2) vb_u8(&d, 0x44);
+                vb_u8(&d, where == 3 ? 0x43 : 0x41);
+                run_doc(&d, where == 3 ? K_ARR : K_OBJ, 2, "length prefix family: width x stored length x payload present");
+                vw_nontrivial(vh_hash(&L[i], sizeof L[i], (uint64_t)(where * 3 + fill)));
+            }
+        }
+    }
+    vw_count("length_prefix_cases", (uint64_t)(sizeof L / sizeof L[0]) * 12);
+    vb_free(&d);
+}
+
 /* --------------------------------------------------------------- random cases -- */
 static int needed_levels(const vnode *n, int od)
 {
@@ -320,7 +356,7 @@ int main(int argc, char **argv)
         vw_case(k);
         vr_seed(&r, VA.seed, VA.wid, k);
         va_reset();
-        if (k == 0 && VA.wid < 4) { ladder_cases(&r); vw_count("ladder_batches", 1); continue; }
+        if (k == 0 && VA.wid < 4) { ladder_cases(&r); vw_count("ladder_batches", 1); if (VA.wid == 0) length_cases(); continue; }
         random_case(&r, k * VA.nworkers + VA.wid);
     }
     vw_count("verify_accepted", n_accept); vw_count("verify_rejected", n_reject); vw_count("depth_first_obstacle", n_deptherr); vw_count("verify_after_abandoned_walk_or_error", n_history); vw_count("verify_after_in_place_change", n_inplace);
